@@ -195,6 +195,24 @@ def rule_count_protocol(col, facts):
                       "%s advances over digits without increment_count and is gated only on the component iterator's contiguity: Bytes::current_count switches on buffer-level contiguity, so digit counts are wrong when another component has separators" % last_seg(cn),
                       f.loc(f.blocks[bb]["ts"]))
     col.floor(R, "digit-consuming steps", n, 3)
+    # the digit loops whose callers read current_count() afterwards: every way of consuming a byte counts
+    for name in ("lexical_parse_float::parse::parse_digits", "lexical_parse_float::parse::parse_u64_digits"):
+        f = facts.fn(name)
+        m = 0
+        for bb, c, a, d, t in f.calls():
+            cn = last_seg(callee_name(c))
+            if cn not in ("step_unchecked", "step_by_unchecked", "try_read", "read_if", "read_if_value", "read_if_value_cased", "read_if_value_uncased", "next"):
+                continue
+            if not a:
+                continue
+            recv = G.root(op_expr(f, a[0]))
+            m += 1
+            found = any(b2 != bb and f.dominates(bb, b2) and callee_name(c2).endswith("DigitsIter::increment_count") and G.root(op_expr(f, a2[0])) == recv
+                        for b2, c2, a2, _d2, _t2 in f.calls())
+            guarded_multi = any(strip_casts(e)[0] == "call" and (strip_casts(e)[1].endswith("Bytes::is_contiguous")) and p is True for _d, e, p in path_conditions(f, bb))
+            col.check(R, "%s:%s" % (last_seg(name), cn), found or guarded_multi,
+                      "%s() consumes a digit in %s without a following increment_count(): the callers compute the implicit exponent from current_count(), which is then short by the digits read here whenever the format has a digit separator" % (cn, last_seg(name)), f.loc(f.blocks[bb]["ts"]))
+        col.check(R, last_seg(name) + ":consumes", m >= 1, "no digit-consuming call found in %s" % last_seg(name), f.loc())
 
 
 def rule_count_gating(col, facts):
